@@ -224,12 +224,17 @@ func runC05Case(c *Ctx, idx int) *CaseResult {
 	if idx < len(docLiterals) {
 		return runLiteralCase(c, idx, cr)
 	}
-	r := c.Rng(idx, 0)
+	// generator cases keep their PRNG index when the function table grows
+	pidx := idx
+	if idx-len(docLiterals) >= 2*len(c05FuncCases) {
+		pidx = idx - 2*(len(c05FuncCases)-c05TableFrozen)
+	}
+	r := c.Rng(pidx, 0)
 	depth := 4
 	if c.Tier == "thorough" {
 		depth = 6
 	}
-	st := GenState(c.Rng(idx, 1))
+	st := GenState(c.Rng(pidx, 1))
 	g := &Gen{R: r, Pool: catalog, Calls: true, Strs: true, Times: true, ShortCircuit: CopyState(st)}
 	var e *Expr
 	if t := idx - len(docLiterals); t < 2*len(c05FuncCases) {
@@ -260,10 +265,10 @@ func runC05Case(c *Ctx, idx int) *CaseResult {
 		cr.inconclusive("no in-domain expression found for this state")
 		return cr
 	}
-	Decorate(e, c.Rng(idx, 2))
+	Decorate(e, c.Rng(pidx, 2))
 	prog := c05Program(e)
 	cellsOf(e, cr)
-	styles := c05Styles(c.Rng(idx, 3))
+	styles := c05Styles(c.Rng(pidx, 3))
 	var firstText string
 	for si, style := range styles {
 		text := style.PrintProgram(prog)
